@@ -372,52 +372,99 @@ replays a life of ONE roll object: changes of its data, each made visible by `re
 
 /-- nothing was found outside the translated subset (no state at module level, no decorator but `property`, no private
     attribute used outside the memo shape), every private attribute `__init__` creates is emptied by `reevaluate_cache`,
-    every remembering method keeps its result in such an attribute, and - `reevaluate_cache` emptying them only AFTER the hook
-    values were re-evaluated - what they hold is computed from the contour points alone -/
+    every remembering method keeps its result in such an attribute, and that attribute is emptied BEFORE the hook values are
+    re-evaluated or - where it is emptied only afterwards, so that the hook functions still see it - what it holds is
+    computed from the contour points alone -/
 theorem roll_keeps_nothing_across_reevaluation : roll_state_ok = true ∧ roll_tables.sound = true := by
+  decide
+
+/-- once the harness demands the repaired statement order (`RESET_FIRST_REQUIRED` in driver/props/c10.py, written into the
+    generated file), the source has it: everything a remembering method keeps is emptied before the hook values are
+    re-evaluated -/
+theorem roll_reset_order_as_required : roll_reset_first_required = true → roll_tables.emptiesFirst = true := by
   decide
 
 /-- a used roll answers like a new one: in every life of a roll object in which the contact length, the radii, the
     discretisation change any number of times (free roll: value set + `reevaluate_cache()`; roll of a pass: every solution
     iteration, every further `solve`) every call of `contour_line`, `surface_interpolation` and every read of a hook that
     reads one of them is answered from the data the roll has at the time of the call, never from what an earlier call left
-    on the object.  (Replacing the groove contour is covered only when `reevaluate_cache` empties the private attributes
-    BEFORE re-evaluating the hook values - see `reset_after_refresh_goes_stale_on_contour_change`.) -/
+    on the object.  Whatever the statement order of `reevaluate_cache` is; replacing the groove contour is covered when
+    everything is emptied BEFORE the hook values are re-evaluated (next theorem). -/
 theorem used_roll_answers_like_a_new_one (ops : List RollOp)
-    (h : roll_tables.resetAfterHooks = true → RollOp.changeShape ∉ ops) :
+    (h : roll_tables.emptiesFirst = false → RollOp.changeShape ∉ ops) :
     ∀ a ∈ rollRun roll_tables {} ops, a.1 = a.2 :=
   rollRun_fresh roll_tables roll_keeps_nothing_across_reevaluation.2 ops {} (inv_new _) h
 
+/-- the repaired statement order (`self._contour_line = None` BEFORE `super().reevaluate_cache()`, whether or not it is
+    emptied again afterwards): a used roll answers like a new one in EVERY life - any number of replacements of the groove,
+    changes of contact length / radii / discretisation, each followed by ONE `reevaluate_cache()`, and calls in any order.
+    No hypothesis about the life; the hypothesis about the generated table is decided by `generated_reset_order` below
+    (and demanded by `roll_reset_order_as_required` once the harness flag is set). -/
+theorem used_roll_answers_like_a_new_one_whatever_changed (hE : roll_tables.emptiesFirst = true) (ops : List RollOp) :
+    ∀ a ∈ rollRun roll_tables {} ops, a.1 = a.2 :=
+  rollRun_fresh_of_emptiesFirst roll_tables roll_keeps_nothing_across_reevaluation.2 hE ops {} (inv_new _)
+
+/-- which of the two source forms was read, decided on the GENERATED tables: either everything is emptied first and every
+    life whatsoever is answered like by a new roll, or it is not and the life `min_radius; new groove + reevaluate_cache();
+    min_radius; surface_interpolation; contour_line; new contact length + reevaluate_cache(); min_radius;
+    surface_interpolation` answers `min_radius` and the surface interpolation from the OLD contour after the groove change
+    (first components: the data the answer was computed from; second: the data the roll has) until the next
+    `reevaluate_cache()` -/
+theorem generated_reset_order :
+    (roll_tables.emptiesFirst = true ∧ ∀ ops : List RollOp, ∀ a ∈ rollRun roll_tables {} ops, a.1 = a.2)
+    ∨ (roll_tables.emptiesFirst = false
+        ∧ rollRun roll_tables {} [.call "min_radius", .changeShape, .call "min_radius", .call "surface_interpolation",
+            .call "contour_line", .changeRest, .call "min_radius", .call "surface_interpolation"]
+          = [(⟨0, 0⟩, ⟨0, 0⟩), (⟨0, 0⟩, ⟨1, 0⟩), (⟨0, 0⟩, ⟨1, 0⟩), (⟨1, 0⟩, ⟨1, 0⟩), (⟨1, 1⟩, ⟨1, 1⟩), (⟨1, 1⟩, ⟨1, 1⟩)]) := by
+  first
+    | exact Or.inl ⟨by decide, used_roll_answers_like_a_new_one_whatever_changed (by decide)⟩
+    | exact Or.inr ⟨by decide, by decide⟩
+
 /-- an interpolator object kept on the roll and not emptied by `reevaluate_cache` (whatever decides when it is rebuilt;
-    tables written out, independent of the generated file): they do not pass the static check, and the second interpolation after a change of the contact length is
-    answered from the data of the first -/
+    tables written out, independent of the generated file; either statement order): they do not pass the static check, and
+    the second interpolation after a change of the contact length is answered from the data of the first -/
 theorem kept_interpolator_goes_stale :
-    let T : RollTables :=
-      { privateFields := ["_contour_line", "_surface_interpolator"], resets := ["_contour_line"], resetAfterHooks := true,
+    let T (before after : List String) : RollTables :=
+      { privateFields := ["_contour_line", "_surface_interpolator"], resetsBefore := before, resetsAfter := after,
         memoFields := [("_contour_line", .shape), ("_surface_interpolator", .all)],
         methods := [("contour_line", .memo "_contour_line"), ("surface_interpolation", .memo "_surface_interpolator")],
         hookReads := [("min_radius", "contour_line")] }
-    T.sound = false
-      ∧ rollRun T {} [.call "surface_interpolation", .changeRest, .call "surface_interpolation"]
-          = [(⟨0, 0⟩, ⟨0, 0⟩), (⟨0, 0⟩, ⟨0, 1⟩)] := by
+    ∀ T' ∈ [T [] ["_contour_line"], T ["_contour_line"] ["_contour_line"]],
+      T'.sound = false
+        ∧ rollRun T' {} [.call "surface_interpolation", .changeRest, .call "surface_interpolation"]
+            = [(⟨0, 0⟩, ⟨0, 0⟩), (⟨0, 0⟩, ⟨0, 1⟩)] := by
   decide
 
-/-- the order of the two statements of `Roll.reevaluate_cache` matters when the groove contour is replaced: with the hook
-    values re-evaluated first, `min_radius` is computed from the contour line remembered for the OLD contour (and the
-    surface grid from that `min_radius`); a second `reevaluate_cache()` repairs it.  With the attributes emptied first
-    nothing is stale.  (Tables as read from pyroll-core today, written out: this witness does not depend on the generated
-    file.  Observation on the unchanged tree, see notes/C10.md; the correspondence replays it on the real `Roll`.) -/
+/-- the place of `self._contour_line = None` in `Roll.reevaluate_cache` matters when the groove contour is replaced: with
+    the hook values re-evaluated first (the OLD source form: `super().reevaluate_cache(); self._contour_line = None`),
+    `min_radius` is computed from the contour line remembered for the old contour (and the surface grid from that
+    `min_radius`); a second `reevaluate_cache()` repairs it.  With the attribute emptied first - and again afterwards (the
+    REPAIRED form) or not - nothing is stale; what the object holds after every step (last three clauses) is the same
+    for the old and the repaired form (emptied afterwards: nothing is left after `reevaluate_cache()`).  (Tables written out: this witness does not depend on the generated file; the
+    correspondence replays such lives on the real `Roll`, see notes/C10.md.) -/
 theorem reset_after_refresh_goes_stale_on_contour_change :
-    let T (after : Bool) : RollTables :=
-      { privateFields := ["_contour_line"], resets := ["_contour_line"], resetAfterHooks := after,
+    let T (before after : List String) : RollTables :=
+      { privateFields := ["_contour_line"], resetsBefore := before, resetsAfter := after,
         memoFields := [("_contour_line", .shape)],
         methods := [("contour_line", .memo "_contour_line"), ("surface_interpolation", .pure)],
         hookReads := [("min_radius", "contour_line")] }
+    let old := T [] ["_contour_line"]
+    let repaired := T ["_contour_line"] ["_contour_line"]
+    let first := T ["_contour_line"] []
     let life : List RollOp := [.call "min_radius", .changeShape, .call "min_radius", .call "surface_interpolation",
       .call "contour_line", .changeRest, .call "min_radius", .call "surface_interpolation"]
-    rollRun (T true) {} life = [(⟨0, 0⟩, ⟨0, 0⟩), (⟨0, 0⟩, ⟨1, 0⟩), (⟨0, 0⟩, ⟨1, 0⟩), (⟨1, 0⟩, ⟨1, 0⟩), (⟨1, 1⟩, ⟨1, 1⟩),
-        (⟨1, 1⟩, ⟨1, 1⟩)]
-      ∧ ∀ a ∈ rollRun (T false) {} life, a.1 = a.2 := by
+    (old.sound = true ∧ old.emptiesFirst = false
+      ∧ rollRun old {} life = [(⟨0, 0⟩, ⟨0, 0⟩), (⟨0, 0⟩, ⟨1, 0⟩), (⟨0, 0⟩, ⟨1, 0⟩), (⟨1, 0⟩, ⟨1, 0⟩), (⟨1, 1⟩, ⟨1, 1⟩),
+          (⟨1, 1⟩, ⟨1, 1⟩)])
+      ∧ (repaired.sound = true ∧ repaired.emptiesFirst = true ∧ ∀ a ∈ rollRun repaired {} life, a.1 = a.2)
+      ∧ (first.sound = true ∧ first.emptiesFirst = true ∧ ∀ a ∈ rollRun first {} life, a.1 = a.2)
+      ∧ ((rollTrace old {} life).map (·.1.store.map (·.1))
+            = [["_contour_line"], [], [], [], ["_contour_line"], [], [], []])
+      ∧ ((rollTrace repaired {} life).map (·.1.store.map (·.1))
+            = [["_contour_line"], [], [], [], ["_contour_line"], [], [], []])
+      ∧ ((rollTrace first {} life).map (·.1.store.map (·.1))
+            = [["_contour_line"], ["_contour_line"], ["_contour_line"], ["_contour_line"], ["_contour_line"],
+               ["_contour_line"], ["_contour_line"], ["_contour_line"]]) := by
   decide
 
 /-- non-vacuity: the generated tables have a remembering method, a pure one and a hook function reading the former; a life
@@ -432,6 +479,20 @@ example : rollRun roll_tables {} [.call "surface_interpolation", .call "contour_
       .call "surface_interpolation"]
     = [(⟨0, 0⟩, ⟨0, 0⟩), (⟨0, 0⟩, ⟨0, 0⟩), (⟨0, 0⟩, ⟨0, 0⟩), (⟨0, 1⟩, ⟨0, 1⟩), (⟨0, 2⟩, ⟨0, 2⟩), (⟨0, 2⟩, ⟨0, 2⟩),
        (⟨0, 3⟩, ⟨0, 3⟩)] := by
+  decide
+
+/-- non-vacuity of `used_roll_answers_like_a_new_one_whatever_changed` on written-out tables of the repaired form (the
+    generated ones: `generated_reset_order`): a life with two groove replacements, every kind of call after each -/
+example :
+    let T : RollTables :=
+      { privateFields := ["_contour_line"], resetsBefore := ["_contour_line"], resetsAfter := ["_contour_line"],
+        memoFields := [("_contour_line", .shape)],
+        methods := [("contour_line", .memo "_contour_line"), ("surface_interpolation", .pure)],
+        hookReads := [("min_radius", "contour_line")] }
+    T.sound = true ∧ T.emptiesFirst = true
+      ∧ rollRun T {} [.call "surface_interpolation", .changeShape, .call "min_radius", .call "contour_line", .changeRest,
+          .changeShape, .call "surface_interpolation", .call "min_radius"]
+        = [(⟨0, 0⟩, ⟨0, 0⟩), (⟨1, 0⟩, ⟨1, 0⟩), (⟨1, 0⟩, ⟨1, 0⟩), (⟨2, 1⟩, ⟨2, 1⟩), (⟨2, 1⟩, ⟨2, 1⟩)] := by
   decide
 
 /-! ## spline groove: the vertex array belongs to the groove -/
